@@ -512,7 +512,10 @@ func c17ConcurrentWriters(eng *Engine, ack *c17AckLog, mu *sync.Mutex, states ma
 					eng.waitQMx.Unlock()
 					return nil, nil // empty event: a read
 				})
-				onDisk := c17BinlogBytesOnDisk(dir) // measured AFTER the return: the binlog only grows
+				var onDisk int64
+				if waitMode {
+					onDisk = c17BinlogBytesOnDisk(dir) // measured AFTER the return: the binlog only grows
+				}
 				switch {
 				case err != nil:
 					ack.line("doreaderr r%d %q", ri, err.Error())
